@@ -14,7 +14,7 @@ pub open spec fn ctx_view(c: Context) -> Scopes {
 }
 /// number of names in all open scopes (what Context::total_len computes)
 pub open spec fn flat_len(v: Scopes) -> nat decreases v.len() {
-    if v.len() == 0 { 0 } else { flat_len(v.drop_last()) + v.last().len() }
+    if v.len() == 0 { 0 } else if v.len() == 1 { v[0].len() } else { flat_len(v.drop_last()) + v.last().len() }
 }
 /// position of the LAST declaration of `name` in one scope (what rposition answers)
 pub open spec fn last_pos(s: Seq<Seq<char>>, name: Seq<char>) -> Option<int> decreases s.len() {
@@ -39,7 +39,7 @@ pub open spec fn ctx_after_define(c: Context, name: Seq<char>, post: Context) ->
 }
 pub open spec fn ctx_define_symbol(c: Context, name: Seq<char>) -> Symbol { Symbol { index: flat_len(ctx_view(c)) as u16, scope: c.scope } }
 pub open spec fn ctx_max_size(c: Context) -> usize { c.max_size }
-pub open spec fn ctx_is_new(c: Context, scope: Scope) -> bool { c.scope == scope && c.max_size == 0 && ctx_view(c).len() == 1 && ctx_view(c)[0].len() == 0 }
+pub open spec fn ctx_is_new(c: Context, scope: Scope) -> bool { c.scope == scope && c.max_size == 0 && ctx_view(c).len() == 1 && ctx_view(c)[0].len() == 0 && flat_len(ctx_view(c)) == 0 }
 
 //@TYPE file=symbols.rs name=SymbolTable
 
@@ -47,8 +47,11 @@ pub open spec fn ctx_is_new(c: Context, scope: Scope) -> bool { c.scope == scope
 /// the table is usable: there is a current context and every context has an open scope (what the unwrap()s of
 /// current_context / Context::define / leave_scope rely on)
 pub open spec fn sym_wf(t: SymbolTable) -> bool {
-    t.contexts@.len() >= 1 && forall|i: int| 0 <= i < t.contexts@.len() ==> ctx_view(#[trigger] t.contexts@[i]).len() >= 1
+    t.contexts@.len() >= 1 && forall|i: int| 0 <= i < t.contexts@.len() ==> ctx_view(#[trigger] t.contexts@[i]).len() >= 1 && ctx_sized(t.contexts@[i])
 }
+/// the size a context reports (the number of slots a call reserves for a function) covers every slot in use, and
+/// slots fit their 16-bit operands
+pub open spec fn ctx_sized(c: Context) -> bool { flat_len(ctx_view(c)) <= c.max_size && flat_len(ctx_view(c)) <= 0x1_0000 }
 /// number of contexts (global + one per function being compiled)
 pub open spec fn sym_contexts(t: SymbolTable) -> int { t.contexts@.len() as int }
 /// number of open block scopes of the current context
@@ -76,6 +79,8 @@ pub open spec fn sym_globals_kept(a: SymbolTable, b: SymbolTable) -> bool {
     sym_global_names(a).len() <= sym_global_names(b).len()
         && forall|i: int| 0 <= i < sym_global_names(a).len() ==> #[trigger] sym_global_names(b)[i] == sym_global_names(a)[i]
 }
+/// the name is found in the CURRENT context (then its slot lies below the size that context reports: O02.slot)
+pub open spec fn sym_in_current(t: SymbolTable, name: Seq<char>) -> bool { ctx_resolve(t.contexts@.last(), name) is Some }
 /// every context but the current one is untouched
 pub open spec fn sym_others_same(a: SymbolTable, b: SymbolTable) -> bool {
     b.contexts@.len() == a.contexts@.len() && b.contexts@.drop_last() =~= a.contexts@.drop_last()
@@ -140,4 +145,59 @@ pub proof fn lemma_function_sees_itself(t0: SymbolTable, t1: SymbolTable, t2: Sy
     assert(t1.contexts@[0] == t1.contexts@.last());
     lemma_declare_takes_over(v0, name);
     assert(ctx_view(t1.contexts@[0]) == declare(v0, name));
+}
+
+/// a slot is always one of the context's slots
+pub proof fn lemma_slot_in_range(v: Scopes, name: Seq<char>)
+    ensures slot_of(v, name) matches Some(i) ==> 0 <= i < flat_len(v)
+    decreases v.len()
+{
+    if v.len() > 0 {
+        lemma_last_pos_range(v.last(), name);
+        lemma_slot_in_range(v.drop_last(), name);
+    }
+}
+/// flat_len of the three shapes the table functions produce
+pub proof fn lemma_flat_len_push_empty(v: Scopes)
+    ensures flat_len(v.push(Seq::<Seq<char>>::empty())) == flat_len(v)
+{
+    assert(v.push(Seq::<Seq<char>>::empty()).drop_last() =~= v);
+}
+pub proof fn lemma_flat_len_drop_last(v: Scopes)
+    requires v.len() >= 1
+    ensures flat_len(v.drop_last()) <= flat_len(v)
+{}
+pub proof fn lemma_flat_len_take1(v: Scopes)
+    requires v.len() >= 1
+    ensures flat_len(v.take(1)) <= flat_len(v)
+    decreases v.len()
+{
+    if v.len() == 1 { assert(v.take(1) =~= v); }
+    else {
+        lemma_flat_len_take1(v.drop_last());
+        assert(v.drop_last().take(1) =~= v.take(1));
+    }
+}
+/// O02.slot  a name found in the CURRENT context has a slot below the size that context reports
+pub proof fn lemma_current_slot_in_range(t: SymbolTable, name: Seq<char>)
+    requires sym_wf(t)
+    ensures ctx_resolve(t.contexts@.last(), name) matches Some(s) ==> (s.index as int) < sym_max_size(t)
+{
+    lemma_slot_in_range(ctx_view(t.contexts@.last()), name);
+}
+
+/// the first scope's names are among the context's names
+pub proof fn lemma_flat_len_first(v: Scopes)
+    requires v.len() >= 1
+    ensures v[0].len() <= flat_len(v)
+    decreases v.len()
+{
+    if v.len() > 1 { lemma_flat_len_first(v.drop_last()); assert(v.drop_last()[0] == v[0]); }
+}
+/// DERIVED clause of Context::define: a declaration keeps the context's size invariant
+pub proof fn lemma_define_keeps_size(c: Context, post: Context, name: Seq<char>)
+    requires ctx_view(c).len() >= 1, ctx_after_define(c, name, post), flat_len(ctx_view(c)) <= 0xFFFF, ctx_sized(c)
+    ensures ctx_sized(post), ctx_view(post).len() == ctx_view(c).len()
+{
+    lemma_declare_takes_over(ctx_view(c), name);
 }
